@@ -227,6 +227,7 @@ Lemma pwrite_beyond h off d : length h = HS -> (Headersize <= off)%Z -> pwrite_r
 Proof.
   intros Hl Ho. unfold pwrite_region. rewrite Headersize_val in Ho.
   replace (off <? 0)%Z with false by (symmetry; apply Z.ltb_ge; lia).
+  destruct (Z.of_nat (length h) <=? off)%Z; [reflexivity|].
   apply overlay_beyond. rewrite Hl. apply Nat2Z.inj_le. rewrite HS_Z, Headersize_val, Z2Nat.id by lia. lia.
 Qed.
 
